@@ -107,7 +107,7 @@ func makeDocs(p *plan) []*document.Document {
 	return docs
 }
 
-var docOpKinds = []string{"para", "heading", "footnote", "endnote", "list", "image", "header", "margins", "style_edit", "style_add", "table", "title", "render", "toc", "removenote", "fromMarkdown", "bullet", "formatted", "save"}
+var docOpKinds = []string{"para", "heading", "footnote", "endnote", "list", "image", "header", "margins", "style_edit", "style_add", "table", "title", "render", "toc", "removenote", "fromMarkdown", "bullet", "formatted", "save", "savefile"}
 
 func genDocOps(r *rng, n int) []docOp {
 	var ops []docOp
@@ -155,9 +155,49 @@ func heldProjection(dp **document.Document) string {
 	return strings.Join(out, " ")
 }
 
+// saved files: every document of a plan saves to a name of its own in one directory - the names share their stem and
+// differ in the extension (report.docx, report.dotx, report.docm)
+var (
+	saveDir   string
+	docIndex  = map[**document.Document]int{}
+	saveFails = map[**document.Document]int{}
+)
+
+func savePath(dp **document.Document) string {
+	return filepath.Join(saveDir, "report"+[]string{".docx", ".dotx", ".docm"}[docIndex[dp]%3])
+}
+
+// fileProjection: what the file the document was last saved to shows now, and how many of its saves failed
+func fileProjection(dp **document.Document) string {
+	heldMu.Lock()
+	nf := saveFails[dp]
+	heldMu.Unlock()
+	b, err := os.ReadFile(savePath(dp))
+	if err != nil {
+		return fmt.Sprintf("no file; failed saves %d", nf)
+	}
+	heldMu.Lock()
+	keep := held[dp]
+	held[dp] = [][]byte{b}
+	heldMu.Unlock()
+	h := heldProjection(dp)
+	heldMu.Lock()
+	held[dp] = keep
+	heldMu.Unlock()
+	return fmt.Sprintf("%s; failed saves %d", h, nf)
+}
+
 func applyDocOp(dp **document.Document, op docOp) {
 	d := *dp
 	switch op.Kind {
+	case "savefile":
+		if saveDir != "" {
+			if err := d.Save(savePath(dp)); err != nil {
+				heldMu.Lock()
+				saveFails[dp]++
+				heldMu.Unlock()
+			}
+		}
 	case "save":
 		if b, err := d.ToBytes(); err == nil {
 			heldMu.Lock()
@@ -327,6 +367,11 @@ func runC07Child(cfg *runCfg) error {
 		imageBytes("png", 3)
 	}
 	docs := makeDocs(&p)
+	saveDir = filepath.Join(cfg.out, "saved")
+	os.MkdirAll(saveDir, 0755)
+	for i := range docs {
+		docIndex[&docs[i]] = i
+	}
 	if len(p.Concurrent) > 0 {
 		for _, h := range p.Concurrent { // fill the harness's own image cache before going concurrent
 			for _, op := range h {
@@ -354,12 +399,15 @@ func runC07Child(cfg *runCfg) error {
 	}
 	var out []map[string]string
 	heldNow := make([]string, len(docs))
+	fileNow := make([]string, len(docs))
 	for i := range docs { // before anything else is serialised
 		heldNow[i] = heldProjection(&docs[i])
+		fileNow[i] = fileProjection(&docs[i])
 	}
 	for i, d := range docs {
 		m := projectDoc(d)
 		m["held:bytes"] = heldNow[i]
+		m["held:file"] = fileNow[i]
 		out = append(out, m)
 	}
 	b, _ := json.Marshal(out)
@@ -433,7 +481,7 @@ func runC07(cfg *runCfg) error {
 		raceBin = ""
 	}
 	res.Extra["race_binary"] = raceBin != ""
-	res.Rule = "pairs of call histories (19 kinds of calls: saving in the middle of a history with the bytes held until the end, content, notes incl. removal, lists, images, headers, page settings, in-place edits of predefined styles through the document's own style manager, custom styles, tables, properties, TOC, template rendering, creation through the Markdown converter) on two distinct documents - both new, both rendered from one template of one engine (whose base document carries 0-10 relationship-creating elements, notes included), or both opened from the same bytes; each pair runs in fresh processes: each history alone, both orders sequentially, a random interleaving, and concurrently in goroutines (under the race detector when available); the projection of each document (every part canonicalised, accessors) must equal its projection alone; non-trivial = both histories have at least 3 calls; distinct by hash of the pair"
+	res.Rule = "pairs of call histories (20 kinds of calls: saving in the middle of a history with the bytes held until the end, saving to files whose names share their stem (report.docx, report.dotx ...) in one directory, content, notes incl. removal, lists, images, headers, page settings, in-place edits of predefined styles through the document's own style manager, custom styles, tables, properties, TOC, template rendering, creation through the Markdown converter) on two distinct documents - both new, both rendered from one template of one engine (whose base document carries 0-10 relationship-creating elements, notes included), or both opened from the same bytes; each pair runs in fresh processes: each history alone, both orders sequentially, a random interleaving, and concurrently in goroutines (under the race detector when available); the projection of each document (every part canonicalised, accessors) must equal its projection alone; non-trivial = both histories have at least 3 calls; distinct by hash of the pair"
 	dist := newDistinct()
 	type job struct {
 		ci   int
